@@ -32,7 +32,7 @@ def ttndo_contraction_order(ttndo: SymmetricTTNDO) -> List[str]:
     all_node_ids = ttndo.linearise()
     # Filter out all bra nodes
     bra_node_ids = [node_id for node_id in all_node_ids
-                    if match(r".*"+ttndo.ket_suffix, node_id)]
+                    if node_id.endswith(ttndo.ket_suffix)]
     return bra_node_ids
 
 def trace_ttndo(ttndo: SymmetricTTNDO) -> complex:
